@@ -1637,7 +1637,7 @@ class QueryBuilder(Selectable, Term):  # type:ignore[misc]
         return " ({columns})".format(columns=",".join(term.get_sql(ctx) for term in self._columns))
 
     def _values_sql(self, ctx: SqlContext) -> str:
-        values_ctx = ctx.copy(subquery=True, with_alias=True)
+        values_ctx = ctx.copy(subquery=True, with_alias=False)
         return " VALUES ({values})".format(
             values="),(".join(
                 ",".join(term.get_sql(values_ctx) for term in row) for row in self._values
